@@ -589,6 +589,33 @@ func decidedLike(pa *Path, pattern string) (bool, bool) {
 	return false, false
 }
 
+// nonEmpty: whether the path found the string or slice key non-empty, however the source spells the test:
+// len(x) > 0, len(x) != 0, len(x) == 0, x != "", x == "", len(x) >= 1 …
+func nonEmpty(pa *Path, key string) (bool, bool) {
+	if v, ok := decidedLike(pa, "len("+key+") > 0"); ok {
+		return v, true
+	}
+	if v, ok := decidedLike(pa, "len("+key+") == 0"); ok {
+		return !v, true
+	}
+	if v, ok := decidedLike(pa, key+` == ""`); ok {
+		return !v, true
+	}
+	if v, ok := decidedLike(pa, `"" == `+key); ok {
+		return !v, true
+	}
+	if v, ok := decidedLike(pa, key+" == nil"); ok {
+		return !v, true
+	}
+	if pa.IntWithin("len("+key+")", 0, 4, 1, 4) {
+		return true, true
+	}
+	if pa.IntWithin("len("+key+")", 0, 4, 0, 0) {
+		return false, true
+	}
+	return false, false
+}
+
 func c03closepayload(p *Program, r *Report, rule string) {
 	fn := p.Func("parseClosePayload")
 	if fn == nil {
